@@ -97,7 +97,15 @@ async def main():
             if why:
                 return True, f'numbering with existing indices mask {mask:04b}: {why}', {'mask': mask}
         client = make_client(tmp)
+        # the CONFIGURED download directory is read when a path is chosen: after a change of the setting the next download lies in the new one
+        first_dl = os.path.join(tmp, 'first-downloads')
+        os.makedirs(first_dl, exist_ok=True)
+        client.settings.shares.download = first_dl
+        client.shares.calculate_download_path('u\\warmup.mp3')
         client.settings.shares.download = dl
+        d0, n0 = client.shares.calculate_download_path('u\\after-change.mp3')
+        if os.path.normpath(d0) != os.path.normpath(dl):
+            return True, f'shares.download changed from {first_dl!r} to {dl!r}: the next download is given {os.path.join(d0, n0)!r}, outside the configured directory', {'scenario': 'setting changed'}
         mgr = client.transfers
         if not RACE:
             # the installed chain through SharesManager.calculate_download_path and _prepare_download_path
